@@ -2,6 +2,7 @@ package main
 
 import (
 	"runtime"
+	"sort"
 	"sync"
 	"sync/atomic"
 
@@ -96,6 +97,84 @@ func init() {
 	// replay re-validates the recorded run itself
 	for _, op := range []string{"r.reset", "r.enter", "r.exit", "r.drawn", "r.ret", "r.end", "r.panic"} {
 		ops[op] = func(e Ev) Ev { return e }
+	}
+	// Tens of millions of ids in one run (no hooks installed, so at the library's own speed): too many
+	// to record one by one. The operation keeps every id whose low byte is zero (1 in 256) and
+	// reports how many of those occur twice, how many ids have a wrong version or variant, and the
+	// OR / AND of all ids (every free bit must have been seen with both values).
+	ops["r.bulk"] = func(e Ev) Ev {
+		g, n := num(e["goroutines"]), 1<<num(e["log2n"])
+		type part struct {
+			kept      []uu.ID
+			or, and   uu.ID
+			bad, done int
+			panicked  bool
+		}
+		parts := make([]part, g)
+		var wg sync.WaitGroup
+		for i := 0; i < g; i++ {
+			wg.Add(1)
+			go func(p *part) {
+				defer wg.Done()
+				p.and = uu.ID{Higher: ^uint64(0), Lower: ^uint64(0)}
+				p.panicked = try(func() {
+					for k := 0; k < n/g; k++ {
+						id := uu.RandomID()
+						if id.Version() != 4 || id.Variant() != 1 {
+							p.bad++
+						}
+						p.or.Higher |= id.Higher
+						p.or.Lower |= id.Lower
+						p.and.Higher &= id.Higher
+						p.and.Lower &= id.Lower
+						if id.Lower&0xff == 0 {
+							p.kept = append(p.kept, id)
+						}
+						p.done++
+					}
+				})
+			}(&parts[i])
+		}
+		wg.Wait()
+		var all []uu.ID
+		or, and := uu.ID{}, uu.ID{Higher: ^uint64(0), Lower: ^uint64(0)}
+		bad, done, panicked := 0, 0, false
+		for i := range parts {
+			p := &parts[i]
+			all = append(all, p.kept...)
+			or.Higher, or.Lower = or.Higher|p.or.Higher, or.Lower|p.or.Lower
+			and.Higher, and.Lower = and.Higher&p.and.Higher, and.Lower&p.and.Lower
+			bad, done, panicked = bad+p.bad, done+p.done, panicked || p.panicked
+		}
+		sort.Slice(all, func(i, j int) bool {
+			if all[i].Higher != all[j].Higher {
+				return all[i].Higher < all[j].Higher
+			}
+			return all[i].Lower < all[j].Lower
+		})
+		dups := 0
+		first := uu.ID{}
+		for i := 1; i < len(all); i++ {
+			if all[i] == all[i-1] {
+				if dups == 0 {
+					first = all[i]
+				}
+				dups++
+			}
+		}
+		e["panic"], e["done"], e["kept"], e["dups"], e["bad"] = panicked, done, len(all), dups, bad
+		e["or"], e["and"], e["firstdup"] = nibbles(or), nibbles(and), nibbles(first)
+		return e
+	}
+	drivers["c19bulk"] = func(d *Drv) {
+		// one goroutine is the fastest way to many draws (no contention on the generator's lock);
+		// the runs of one process continue the same generator
+		big, small := 26, 23
+		if d.Thorough() {
+			big, small = 28, 26
+		}
+		d.Do(Ev{"op": "r.bulk", "goroutines": 1, "log2n": big, "st": 1})
+		d.Do(Ev{"op": "r.bulk", "goroutines": []int{4, 16, 3}[d.Shard%3], "log2n": small, "st": 1})
 	}
 	drivers["c19"] = func(d *Drv) {
 		type cfg struct{ g, procs int }
